@@ -220,7 +220,9 @@ class DiffXReader(object):
 
                     try:
                         section['metadata'] = json.loads(content)
-                    except ValueError as e:
+                    except (ValueError, RecursionError) as e:
+                        # RecursionError: the JSON is nested too deeply for
+                        # the parser.
                         raise DiffXParseError(
                             'JSON metadata could not be parsed: %s' % e,
                             linenum=linenum)
